@@ -54,6 +54,8 @@ func (e *Expr) render(s *Spec, r *Rule) string {
 		return fmt.Sprintf("%q", e.S)
 	case 'd':
 		return fmt.Sprintf("$%d", e.K)
+	case 'g':
+		return e.S
 	case '+', '*':
 		return "(" + e.L.render(s, r) + " " + string(e.Op) + " " + e.R.render(s, r) + ")"
 	case 'c':
@@ -198,12 +200,15 @@ func Render(s *Spec, o RenderOpts) string {
 		switch t.Decl {
 		case DeclToken:
 			d := "%token"
-			if t.Tag != "" && !t.Redecl {
+			if t.Tag != "" && !t.Redecl && !t.TagByType {
 				d += l.ws() + "<" + t.Tag + ">"
 			}
 			d += l.ws() + t.Key()
 			if t.Code != 0 && t.Name != "" && !t.Redecl {
 				d += l.ws() + fmt.Sprint(t.Code)
+			} else if t.Name != "" && !t.Redecl && l.chance(1, 6) {
+				// a string alias, as in `%token ID "identifier"` (documented in Parser.go); purely decorative
+				d += l.ws() + fmt.Sprintf("%q", "alias of "+t.Name)
 			}
 			if t.Redecl {
 				// %token <tag> X   then   %token X n
@@ -219,6 +224,9 @@ func Render(s *Spec, o RenderOpts) string {
 				}
 			}
 			blocks = append(blocks, block{d, -1})
+			if t.Tag != "" && t.TagByType && !t.Redecl && t.Name != "" {
+				blocks = append(blocks, block{"%type" + l.ws() + "<" + t.Tag + ">" + l.ws() + t.Name, -1})
+			}
 		case DeclPrecOnly:
 			precOnly[ti] = true
 		}
@@ -226,9 +234,16 @@ func Render(s *Spec, o RenderOpts) string {
 	if s.EOFAlias != "" {
 		blocks = append(blocks, block{"%token" + l.ws() + s.EOFAlias + l.ws() + "-1", -1})
 	}
+	lastTypeTag := ""
 	for _, nt := range s.NTs {
 		if nt.Tag != "" {
+			// several names per %type line when they share the tag
+			if n := len(blocks); n > 0 && lastTypeTag == nt.Tag && strings.HasPrefix(blocks[n-1].text, "%type") && l.chance(1, 2) {
+				blocks[n-1].text += l.ws() + nt.Name
+				continue
+			}
 			blocks = append(blocks, block{"%type" + l.ws() + "<" + nt.Tag + ">" + l.ws() + nt.Name, -1})
+			lastTypeTag = nt.Tag
 		}
 	}
 	for li, lv := range s.Levels {
@@ -391,12 +406,18 @@ func goEpilogue(s *Spec, o RenderOpts) string {
 			eof = s.EOFAlias
 		}
 		b.WriteString("func GetToken(input string, val *ValType, pos *int) int {\n\t_ = fmt.Sprint\n\treturn " + eof + "\n}\n")
+		for _, g := range UserGlobals {
+			b.WriteString(fmt.Sprintf("var %s = %d\n", g.Name, g.Val))
+		}
 		if !s.NoRec {
 			b.WriteString("func Rec(r int) {}\n")
 		}
 		return b.String()
 	}
 	b.WriteString("var HookNext func(string, int) (int, int)\nvar HookRec func(int)\n\nfunc Rec(r int) { HookRec(r) }\n\n")
+	for _, g := range UserGlobals {
+		b.WriteString(fmt.Sprintf("var %s = %d\n", g.Name, g.Val))
+	}
 	// the value the parser hands to the lexer is reported to the environment before it is overwritten:
 	// at the first token of a parse it must not carry anything over from an earlier parse
 	incoming := "0"
@@ -444,12 +465,18 @@ func tsEpilogue(s *Spec, o RenderOpts) string {
 	var b strings.Builder
 	if o.Epi == EpiMinimal {
 		b.WriteString("function GetToken(input :string, model:{ValType :ValType, pos :number}) :number {\n\treturn " + goEOF(s) + "\n}\n")
+		for _, g := range UserGlobals {
+			b.WriteString(fmt.Sprintf("var %s = %d;\n", g.Name, g.Val))
+		}
 		if !s.NoRec {
 			b.WriteString("function Rec(r :number) {}\n")
 		}
 		return b.String()
 	}
 	b.WriteString("function Rec(r :number) { HookRec(r) }\n")
+	for _, g := range UserGlobals {
+		b.WriteString(fmt.Sprintf("var %s = %d;\n", g.Name, g.Val))
+	}
 	tsIncoming := "0"
 	for _, f := range s.Fields {
 		if f.Type == "int" {
@@ -508,7 +535,7 @@ func mergeTokenDecl(a, b string) (string, bool) {
 			return "", "", false
 		}
 		d = d[len("%token"):]
-		if strings.ContainsAny(d, "/\n") { // a comment or line break inside: leave alone
+		if strings.ContainsAny(d, "/\n\"") { // a comment, line break or alias string inside: leave alone
 			return "", "", false
 		}
 		t := strings.TrimLeft(d, " \t")
